@@ -2,8 +2,8 @@
 Generic linearizability search over a *micro-step* operational semantics.
 
 An API call is a small state machine `P` (pending-operation state): created by `fresh op` at
-its call event, advanced by `micro s p = some (s', p')` (one atomic effect on the shared
-abstract state `σ`; `none` = cannot move in this state, e.g. a blocking send on a full
+its call event, advanced by one of `micro s p` (the atomic effects it can have on the shared
+abstract state `σ` now; `[]` = it cannot move in this state, e.g. a blocking send on a full
 channel), and `fin p = some out` once its result is determined.  Single-effect operations
 take one micro-step; blocking batch operations and rendezvous hand-offs take several, which is
 exactly why they are not atomic in the implementation either.
@@ -16,7 +16,13 @@ W.l.o.g. steps are taken "just in time", immediately before a return event that 
 (steps commute to the right over call events and over return events of already finished
 operations), so the search branches only there.
 
-`Lin` is the declarative version; soundness `search … = some s' → Lin …` is in Fv/Lemmas/ChanLin.lean.
+With `quiesce = true` (the run ended in a deadlock: every thread that has not finished is
+blocked) the search additionally demands a final state in which every operation that never
+returned is *disabled*: not finished and without a possible step.  A blocked `recv` with an item
+buffered is therefore a lost wakeup, not an accepted history.
+
+Failed search states are memoised (`Memo`); memoisation can only turn `some` into `none`, so it
+is irrelevant for soundness: `search … = (some s', _) → Lin …` (Fv/Lemmas/ChanLin.lean).
 Import-free (linked into `fvdrv_chan`).
 -/
 namespace Fv.Chan.LinCore
@@ -26,15 +32,17 @@ inductive Event (Op Out : Type) where
   | ret (t : Nat) (out : Out)
   deriving Repr
 
-structure Sem (σ Op Out P : Type) where
+abbrev Pend (P : Type) := List (Nat × P)
+
+structure Sem (σ Op Out P K : Type) where
   fresh : Nat → Op → P
   /-- the possible atomic steps of a pending operation (empty = it cannot move now) -/
   micro : σ → P → List (σ × P)
   fin : P → Option Out
   /-- bookkeeping at the return event (e.g. "one fewer send in flight") -/
   retire : σ → P → σ
-
-abbrev Pend (P : Type) := List (Nat × P)
+  /-- memo key: everything future behaviour depends on -/
+  key : σ → Pend P → K
 
 def lookup {P} (t : Nat) : Pend P → Option P
   | [] => none
@@ -54,8 +62,29 @@ def nextRet {Op Out} (t : Nat) : List (Event Op Out) → Option Out
   | .ret u o :: r => if u = t then some o else nextRet t r
   | .call u _ :: r => if u = t then none else nextRet t r
 
+/-! ### memo of failed states -/
+structure Memo (K : Type) where
+  buckets : Array (List (Nat × K)) := Array.replicate 257 []
+
+def Memo.slot {K} [Hashable K] (n : Nat) (k : K) : Nat := ((hash (n, hash k)).toNat) % 257
+
+def Memo.contains {K} [BEq K] [Hashable K] (m : Memo K) (n : Nat) (k : K) : Bool :=
+  (m.buckets.getD (Memo.slot n k) []).any (fun x => x.1 == n && x.2 == k)
+
+def Memo.insert {K} [Hashable K] (m : Memo K) (n : Nat) (k : K) : Memo K :=
+  let i := Memo.slot n k
+  { buckets := m.buckets.setIfInBounds i ((n, k) :: m.buckets.getD i []) }
+
+/-- first success of a memo-threading function over a list of candidates -/
+def firstSomeM {α β M} (f : α → M → Option β × M) : List α → M → Option β × M
+  | [], m => (none, m)
+  | a :: r, m =>
+    match f a m with
+    | (some b, m') => (some b, m')
+    | (none, m') => firstSomeM f r m'
+
 section
-variable {σ Op Out P : Type} [BEq Out] (sem : Sem σ Op Out P)
+variable {σ Op Out P K : Type} [BEq Out] [BEq K] [Hashable K] (sem : Sem σ Op Out P K)
 
 /-- admissible w.r.t. the look-ahead: a finished operation must show the result it will return -/
 def pruneOk (u : Nat) (p : P) (evs : List (Event Op Out)) : Bool :=
@@ -63,51 +92,56 @@ def pruneOk (u : Nat) (p : P) (evs : List (Event Op Out)) : Bool :=
   | some o, some o' => o == o'
   | _, _ => true
 
-def firstSome {α β} (f : α → Option β) : List α → Option β
-  | [] => none
-  | a :: r => match f a with
-    | some b => some b
-    | none => firstSome f r
+/-- every pending operation is unfinished and cannot move -/
+def quiescent (s : σ) (pend : Pend P) : Bool :=
+  pend.all fun x => (sem.fin x.2).isNone && (sem.micro s x.2).isEmpty
+
+/-- all (thread, step) candidates in state `s` -/
+def candidates (s : σ) (pend : Pend P) : List (Nat × σ × P) :=
+  pend.flatMap fun x => (sem.micro s x.2).map fun r => (x.1, r.1, r.2)
 
 /-- Returns the final abstract state of some explaining interleaving. -/
-def search : Nat → σ → Pend P → List (Event Op Out) → Option σ
-  | 0, _, _, _ => none
-  | _ + 1, s, _, [] => some s
-  | fuel + 1, s, pend, .call t op :: rest => search fuel s ((t, sem.fresh t op) :: pend) rest
-  | fuel + 1, s, pend, .ret t out :: rest =>
+def search (quiesce : Bool) : Nat → Memo K → σ → Pend P → List (Event Op Out) → Option σ × Memo K
+  | 0, m, _, _, _ => (none, m)
+  | fuel + 1, m, s, pend, [] =>
+    if !quiesce || quiescent sem s pend then (some s, m)
+    else if m.contains 0 (sem.key s pend) then (none, m)
+    else
+      match firstSomeM (fun (c : Nat × σ × P) m => search quiesce fuel m c.2.1 (setP c.1 c.2.2 pend) [])
+              (candidates sem s pend) m with
+      | (some r, m') => (some r, m')
+      | (none, m') => (none, m'.insert 0 (sem.key s pend))
+  | fuel + 1, m, s, pend, .call t op :: rest =>
     match lookup t pend with
-    | none => none
+    | some _ => (none, m)     -- malformed: the thread already has an operation in flight
+    | none => search quiesce fuel m s ((t, sem.fresh t op) :: pend) rest
+  | fuel + 1, m, s, pend, .ret t out :: rest =>
+    match lookup t pend with
+    | none => (none, m)
     | some p =>
       match sem.fin p with
-      | some o => if o == out then search fuel (sem.retire s p) (erase t pend) rest else none
+      | some o => if o == out then search quiesce fuel m (sem.retire s p) (erase t pend) rest else (none, m)
       | none =>
-        firstSome (fun (x : Nat × P) =>
-          firstSome (fun (r : σ × P) =>
-            if pruneOk sem x.1 r.2 (.ret t out :: rest) then search fuel r.1 (setP x.1 r.2 pend) (.ret t out :: rest) else none)
-            (sem.micro s x.2)) pend
+        let n := rest.length + 1
+        if m.contains n (sem.key s pend) then (none, m)
+        else
+          match firstSomeM (fun (c : Nat × σ × P) m =>
+                  if pruneOk sem c.1 c.2.2 (.ret t out :: rest)
+                  then search quiesce fuel m c.2.1 (setP c.1 c.2.2 pend) (.ret t out :: rest) else (none, m))
+                (candidates sem s pend) m with
+          | (some r, m') => (some r, m')
+          | (none, m') => (none, m'.insert n (sem.key s pend))
 
-/-- Declarative linearizability (existence of an interleaving of micro-steps). -/
-inductive Lin : σ → Pend P → List (Event Op Out) → Prop where
-  | nil (s pend) : Lin s pend []
-  | call {s pend t op rest} : Lin s ((t, sem.fresh t op) :: pend) rest → Lin s pend (.call t op :: rest)
-  | ret {s pend t p out rest} : lookup t pend = some p → sem.fin p = some out →
-      Lin (sem.retire s p) (erase t pend) rest → Lin s pend (.ret t out :: rest)
-  | step {s pend u pu s' pu' evs} : lookup u pend = some pu → (s', pu') ∈ sem.micro s pu →
-      Lin s' (setP u pu' pend) evs → Lin s pend evs
-
-theorem lookup_of_mem {pend : Pend P} {u : Nat} {pu : P} (h : (u, pu) ∈ pend) :
-    ∃ q, lookup u pend = some q := by
-  induction pend with
-  | nil => cases h
-  | cons a r ih =>
-    obtain ⟨v, pv⟩ := a
-    simp only [lookup]
-    by_cases hv : v = u
-    · simp [hv]
-    · simp only [hv, if_false]
-      rcases List.mem_cons.mp h with h | h
-      · cases h; exact absurd rfl hv
-      · exact ih h
+/-- Declarative linearizability: an interleaving of micro-steps explaining the history, ending in
+state `sf` with the operations `pf` still pending. -/
+inductive Lin : σ → Pend P → List (Event Op Out) → σ → Pend P → Prop where
+  | nil (s pend) : Lin s pend [] s pend
+  | call {s pend t op rest sf pf} : lookup t pend = none → Lin s ((t, sem.fresh t op) :: pend) rest sf pf →
+      Lin s pend (.call t op :: rest) sf pf
+  | ret {s pend t p out rest sf pf} : lookup t pend = some p → sem.fin p = some out →
+      Lin (sem.retire s p) (erase t pend) rest sf pf → Lin s pend (.ret t out :: rest) sf pf
+  | step {s pend u pu s' pu' evs sf pf} : lookup u pend = some pu → (s', pu') ∈ sem.micro s pu →
+      Lin s' (setP u pu' pend) evs sf pf → Lin s pend evs sf pf
 
 end
 
